@@ -87,6 +87,8 @@ def fixpoint(ctx, repo, cname, tier):
     seen = {start}
     q = deque([start])
     rets = {False: set(), True: set()}
+    trans = {}
+    proto_first = init[attrs[0]] < init[attrs[1]]  # canonical order: (protocol counter, command counter)
     nviol = 0
     ntrans = 0
     cap = 60000
@@ -117,6 +119,8 @@ def fixpoint(ctx, repo, cname, tier):
                 nviol += 1
             rets[kind].add(r)
             ns = (obj.attrs.get(attrs[0]), obj.attrs.get(attrs[1]), r if not kind else s[2], r if kind else s[3])
+            can = (lambda t: (t[0], t[1]) if proto_first else (t[1], t[0]))
+            trans[(can(s), kind)] = (r, can(ns))
             if ns not in seen:
                 if len(seen) >= cap:
                     ctx.ob("R1", f"{cname}::bounded", False, f"{fi.qual}: counter state space not closed after {cap} states (counter never wraps?)", fi.loc)
@@ -135,7 +139,7 @@ def fixpoint(ctx, repo, cname, tier):
            f"{fi.qual}(True) issues {_rng(rets[True])}, expected exactly 192..255", fi.loc)
     ctx.ob("R1", f"{cname}::never-zero", 0 not in rets[False] | rets[True], f"{fi.qual} can return 0", fi.loc)
     ctx.ob("R2", f"{cname}::successor-law", True, f"successor law checked on {ntrans} transitions of {len(seen)} states")
-    return fi, attrs
+    return fi, attrs, trans
 
 
 def _rng(s):
@@ -283,20 +287,16 @@ def _ordinal(fi, node):
     return i
 
 
-def sibling(ctx, repo):
-    a = repo.own_method(IMPLS[0], FN)
-    b = repo.own_method(IMPLS[1], FN)
-
-    def norm(fi):
-        body = list(fi.node.body)
-        # unwrap a single `with self.<x>:`
-        body = [s for s in body if not (isinstance(s, ast.Expr) and isinstance(s.value, ast.Constant))]
-        if len(body) == 1 and isinstance(body[0], ast.With):
-            body = body[0].body
-        return "\n".join(ast.unparse(s) for s in body)
-
-    ctx.ob("R5", "sibling-agreement", norm(a) == norm(b),
-           f"{a.qual} and {b.qual} differ after unwrapping the lock", a.loc)
+def sibling(ctx, repo, results):
+    """R5: the two implementations compute the same transition function (semantic
+    agreement on every reachable state and both kinds; textual differences such as a
+    dropped `else:` or named constants do not matter)."""
+    if len(results) != 2:
+        return
+    (fa, _, ta), (fb, _, tb) = results
+    diff = [k for k in set(ta) | set(tb) if ta.get(k) != tb.get(k)]
+    ctx.ob("R5", "sibling-agreement", not diff,
+           f"{fa.qual} and {fb.qual} disagree on {len(diff)} (state, kind) pairs, e.g. {diff[:1]}: {ta.get(diff[0]) if diff else None} vs {tb.get(diff[0]) if diff else None}", fa.loc)
 
 
 def check(ctx):
@@ -307,11 +307,14 @@ def check(ctx):
     ctx.rule("R3", "counters are per-instance constants set in __init__; in GeckoUdpSocket every access is inside `with self._lock`")
     ctx.rule("R4", "kind per draw site: GeckoPackCommandProtocolHandler builders take (True), all others (False); builders never get a non-counter sequence")
     ctx.rule("R5", "both implementations identical modulo the lock")
+    results = []
     for cname in IMPLS:
         r = fixpoint(ctx, repo, cname, ctx.tier)
+        if r:
+            results.append(r)
         if r and cname == "GeckoUdpSocket":
             lock_discipline(ctx, repo, cname, r[1])
     call_sites(ctx, repo)
-    sibling(ctx, repo)
+    sibling(ctx, repo, results)
     ctx.assume("threading.Lock provides mutual exclusion (CPython)")
     ctx.trusted.append("vlib.absint concrete-int interpretation of a 10-line pure function")
